@@ -38,6 +38,51 @@ CHECKS = {
   note=NOTE_COMMON + "Assumed (validated by the completion log): asyncio.gather(return_exceptions=True) runs all "
        "children, cancels none, slots results by input index; isinstance = the issubclass table of the six classes.",
   tech="Lean 4 proof (slot-array invariant over any completion permutation) + virtual-time differential", ref="§5 C20"),
+ "C04": dict(
+  text="Lean theorems about the batcher machine (Batcher/Model.lean): C04_outcome (for every batch dict, script and "
+       "result order the key's future is resolved exactly once, with the independently written specOutcome), "
+       "C04_no_cross_key, C04_always_answers (+ behaviourGo_ends: the harness batch function always ends). The machine "
+       "(queue, assembly, FIFO semaphore, retention, cancellation; the same actStep the theorems are about) is tied to "
+       "AsyncBackgroundBatcher by a virtual-time differential on random timed programs; an independent monitor "
+       "judges every real execution (outcome = first-yield reading, nobody pending for ever)",
+  note=NOTE_COMMON + "Partial: the theorems cover what a batch gives each of its keys (per-batch, untimed); that "
+       "every caller is attached to the batch carrying its key and that every batch is eventually run is validated "
+       "by the correspondence run and the monitor, not proved. asyncio Queue/Semaphore/Future/shield semantics assumed.",
+  tech="Lean 4 proof (induction over the batch script against an independent spec) + virtual-time "
+       "model/implementation differential + outcome monitor", ref="§5 Batcher"),
+ "C09": dict(
+  text="Lean theorem C09_cancel_touches_only_the_caller: in the batcher machine a cancel input changes nothing but "
+       "the cancelled caller's entry in `waiting` and its own `cancelled` event (queue, batches, futures, retention, "
+       "timers identical), with C04_outcome for what the others then receive; the machine is tied to the real code "
+       "by a virtual-time differential over programs that cancel any subset of callers while queued / running / "
+       "after the result, with shared keys and fresh calls afterwards; monitor: every non-cancelled caller gets the "
+       "batch function's outcome for its key and nobody stays pending",
+  note=NOTE_COMMON + "Partial: the one-step frame theorem is proved; its lift to whole runs (outcomes of run-with-"
+       "cancels = outcomes of run-without on non-cancelled callers) is not yet a theorem and is covered by the "
+       "differential. Holds only after fix 72f5b5b (F6).",
+  tech="Lean 4 proof (frame theorem for the cancel step) + virtual-time differential with cancellation grid",
+  ref="§5 Batcher"),
+ "C10": dict(
+  text="Lean model of assembly / FIFO semaphore / batch timeout (Batcher/Model.lean) with theorem "
+       "C11_fresh_adds_work (each work-creating call queues exactly one item, in arrival order); size, slot, FIFO "
+       "and deadline behaviour of the machine is tied to the real code by a virtual-time differential that compares "
+       "every batch's start time, identity and contents, including max_batch_size mutated while running; monitor: "
+       "1 <= size <= limit in force, running <= max_concurrent_batches, FIFO, not early / not late, sharing",
+  note=NOTE_COMMON + "Partial: the machine-level invariants (size, slots, FIFO) are proved for the assembly core "
+       "in design-probes and are being ported to the full machine; until then C10 rests on the correspondence and "
+       "the monitor. asyncio.Semaphore FIFO fairness assumed (3.12).",
+  tech="Lean 4 model + virtual-time model/implementation differential on batch events + limit/FIFO/deadline monitor",
+  ref="§5 Batcher"),
+ "C11": dict(
+  text="Lean theorems C11_shared_adds_no_work (a call whose key is remembered - pending or inside the retention "
+       "window - queues nothing, creates no future and gets that future's outcome) and C11_fresh_adds_work; the "
+       "retention machine (forget at completion + retention_timeout) is tied to the real code by a virtual-time "
+       "differential over 1..3 keys with gaps around retention_timeout and completion times; monitor: no batch "
+       "carries a key twice, sharers get the original's outcome, a call after the window is computed afresh",
+  note=NOTE_COMMON + "Partial: 'no batch ever carries a key twice' as a machine invariant is not yet a theorem "
+       "(monitor + differential). call_later exactness assumed.",
+  tech="Lean 4 proof (step theorems on the retention table) + virtual-time differential + sharing monitor",
+  ref="§5 Batcher"),
 }
 
 def main():
